@@ -555,6 +555,29 @@ func (r *runner) buildDecor(bar, di int, spec *DecorSpec) decor.Decorator {
 	wc := decor.WC{W: spec.W, C: spec.C}
 	in := &innerDecor{WC: wc.Init(), r: r, bar: bar, di: di, spec: spec}
 	var d decor.Decorator
+	if spec.Disabled {
+		// conditionally disabled: nil from here on, whatever wraps it
+		d = decor.OnCondition(in, false)
+		for _, w := range spec.Wrap {
+			switch w {
+			case "oncomplete", "oncomplete-e":
+				d = decor.OnComplete(d, "done")
+			case "onabort", "onabort-e":
+				d = decor.OnAbort(d, "abrt")
+			case "meta":
+				d = decor.Meta(d, colour)
+			case "oncompletemeta":
+				d = decor.OnCompleteMeta(d, colour)
+			case "onabortmeta":
+				d = decor.OnAbortMeta(d, colour)
+			case "ocoa", "ocoa-e":
+				d = decor.OnCompleteOrOnAbort(d, "fin")
+			case "ocmoam":
+				d = decor.OnCompleteMetaOrOnAbortMeta(d, colour)
+			}
+		}
+		return d // nil when the library is right; a non-nil wrapper around nothing goes to the bar as it is
+	}
 	switch {
 	case spec.Listener && spec.Ewma:
 		d = listenerEwmaDecor{listenerDecor{in}}
@@ -608,6 +631,9 @@ func (r *runner) buildBarOptions(idx int) (mpb.BarFiller, []mpb.BarOption) {
 	switch spec.Filler {
 	case "spinner":
 		base = mpb.SpinnerStyle().Build()
+	case "spinnerv":
+		// custom frames of different display widths
+		base = mpb.SpinnerStyle(".", "..", "世界", "o", "-->", "").Build()
 	case "nop":
 		base = mpb.NopStyle().Build()
 	case "tag":
@@ -944,7 +970,13 @@ func (r *runner) scenario() {
 	switch cfg.Refresh {
 	case "manual":
 		r.manual = make(chan interface{})
+		if cfg.AlsoAuto == 1 {
+			opts = append(opts, mpb.WithAutoRefresh())
+		}
 		opts = append(opts, mpb.WithManualRefresh(r.manual))
+		if cfg.AlsoAuto == 2 {
+			opts = append(opts, mpb.WithAutoRefresh())
+		}
 	case "autoinj":
 		opts = append(opts, mpb.WithAutoRefresh(), mpb.WithRefreshRate(24*time.Hour), mpb.VerifRenderReq(&r.rreq))
 	case "autort":
@@ -996,6 +1028,7 @@ func (r *runner) scenario() {
 	if cfg.Delay && !r.delayReleased && !r.cancelled.Load() {
 		// (a cancelled container must stop even if its render delay never ends)
 		r.delayReleased = true
+		r.event("client.release", 1, nil)
 		close(r.delay)
 	}
 	r.stepsDone.Store(true)
